@@ -129,6 +129,7 @@ PROPS['C19'] = {
     'level_note': 'partial claim: fresh machine, isolation, determinism of a step; output reproducibility and parser reuse are outside (DESIGN.md C19)',
 }
 PROPS['C15'] = {
+    'extra_harnesses': r'^c11n_\w+(11|9)$',
     'explanation': 'fragment: the hand-written position arithmetic that the parsers\' error paths call (LexerHelper::get_newline_before / get_bounds composed as get_err_pos) '
                    'never aborts and yields slice bounds inside the text, for every sorted newline list (<= 4 newlines), text length and position',
     'bounds': '<= 4 newlines (the code distinguishes none / first / middle / last), text length < 4096, unwind 6 with unwinding assertions',
@@ -176,6 +177,7 @@ PROPS['C08'] = {
 }
 PROPS['C14'] = {
     'e2': True,
+    'extra_harnesses': r'^c11n_(word|byte|sbyte|sword)_',
     'explanation': '(E1) every rejecting action of the assembler, from a symbolic table state: duplicate label / procedure, CALL of a non-procedure, jump to a data label, '
                    'OFFSET / byte / word operand on a code label or unknown name, INT other than 3/10h/21h, IN/OUT/LDS/LES/WAIT/ESC/LOCK/INTO/IRET, print range leaving 1 MiB: '
                    'Err and no line pushed.  (E2) families of invalid token shapes have no derivation in the assembler grammar.',
